@@ -64,6 +64,7 @@ type c03File struct {
 	// abandoned: posted at block 4 and never taken up by a prover, so that the reward block under test (height 8) is the
 	// first one at which it is past its first window and gets dropped
 	abandoned bool
+	proofType int64 // the (unvalidated, client-supplied) proof type the file is posted with
 }
 
 func perms(xs []string) [][]string {
@@ -190,7 +191,7 @@ func c03RunOpt2(env world.Env, files []c03File, extraGauge bool, reg3 bool, rais
 	post := func(i int) {
 		fl := files[i]
 		starts[i] = env.Ctx().BlockHeight()
-		pm := storagetypes.NewMsgPostFile(u, fl.f.merkle, fl.size, 0, 0, 3, "{}")
+		pm := storagetypes.NewMsgPostFile(u, fl.f.merkle, fl.size, 0, fl.proofType, 3, "{}")
 		if fl.payOnce {
 			pm.MaxProofs = 1
 			pm.Expires = starts[i] + 200_000
@@ -399,6 +400,9 @@ func c03Enum(thorough bool) mc.Enum {
 						if size == 7 && !extra {
 							e.Cases = append(e.Cases, mc.Case{Desc: fmt.Sprintf("one|%s|size=%d|extraGauge=%v|reg3=%v|raiseWindow", failDesc(l, fail), size, extra, reg3), Run: func(env world.Env) mc.CaseResult {
 								return c03RunOpt(env, []c03File{{f: bySize[size], size: size, list: l, fail: fail}}, extra, reg3, true)
+							}})
+							e.Cases = append(e.Cases, mc.Case{Desc: fmt.Sprintf("one|%s|size=%d|extraGauge=%v|reg3=%v|proofType=1", failDesc(l, fail), size, extra, reg3), Run: func(env world.Env) mc.CaseResult {
+								return c03Run(env, []c03File{{f: bySize[size], size: size, list: l, fail: fail, proofType: 1}}, extra, reg3)
 							}})
 							e.Cases = append(e.Cases, mc.Case{Desc: fmt.Sprintf("one|%s|size=%d|extraGauge=%v|reg3=%v|atomGauge", failDesc(l, fail), size, extra, reg3), Run: func(env world.Env) mc.CaseResult {
 								return c03RunOpt2(env, []c03File{{f: bySize[size], size: size, list: l, fail: fail}}, extra, reg3, false, true)
